@@ -12,6 +12,7 @@
 #include <string>
 #include <vector>
 #include "mp/sol-reader2.hpp"
+#include "mp/nl-solver.h"
 #include "mp/nl-utils.h"
 #include "h_solcommon.h"
 #include "h_solmsg.h"
@@ -201,8 +202,10 @@ static Bytes to_binary(const SolFile &f) {
 }
 
 // ------------------------------------------------------------------ handlers
-enum Mode { ALL, SOME, NONE, SETERR, REFUSE };
-static const char *MODES[] = {"all", "some", "none", "seterr", "refuse"};
+// EASY: not a handler of the harness but the library's own one (SOLHandler_Easy of NLSolver::ReadSolution(), the
+// reader of the "easy" model API), for a loaded model of the declared size whose variables are reordered in the NL file
+enum Mode { ALL, SOME, NONE, SETERR, REFUSE, EASY };
+static const char *MODES[] = {"all", "some", "none", "seterr", "refuse", "easy"};
 
 struct Rec : mp::SOLHandler {
   mp::NLHeader h_;
@@ -275,7 +278,33 @@ static void one_read(const std::string &bytes, const SolFile &f, const char *fmt
        ",\"cls\":" + jstr(cls) + ",\"nv\":" + std::to_string(dnv) + ",\"nc\":" + std::to_string(dnc) + ",\"decl\":\"" + dcls + "\",\"mode\":\"" + MODES[mode] +
        "\",\"valid\":" + (cls == "valid" ? "true" : "false") + ",\"size\":" + std::to_string(bytes.size()) + ",\"avail\":" + (std::string(fmt) == "binary" && std::string(dcls) == "equal" ? G_AVAIL : std::string("{\"dual\":-1,\"primal\":-1,\"suf\":[]}")) + ",\"hdrs\":" + hdrs + "}");
   ++NREAD;
-  int rc = run_isolated([&] {
+  int rc = mode == EASY ? run_isolated([&] {
+    int n = dnv, nr = dnc;
+    std::vector<double> lb(n, 0.0), ub(n, 10.0), rlb(nr, -1e3), rub(nr, 1e3), c(n, 1.0), av(nr, 1.0);
+    std::vector<int> ty(n);
+    for (int i = 0; i < n; ++i) ty[i] = i % 2 == 0 ? NLW2_VarTypeInteger : NLW2_VarTypeContinuous;   // integers go last in NL order
+    std::vector<size_t> ast(nr + 1); std::vector<int> ai(nr);
+    for (int r = 0; r < nr; ++r) { ast[r] = r; ai[r] = r % n; }
+    ast[nr] = nr;
+    mp::NLModel mdl("verifC14");
+    mdl.SetCols({n, lb.data(), ub.data(), ty.data()});
+    mdl.SetRows(nr, rlb.data(), rub.data(), {nr, NLW2_MatrixFormatRowwise, (size_t)nr, ast.data(), ai.data(), av.data()});
+    mdl.SetLinearObjective(NLW2_ObjSenseMinimize, 0.0, c.data());
+    mp::NLSolver nls;
+    std::string stub = WD + "/easy";
+    nls.SetFileStub(stub);
+    const mp::NLModel &cmdl = mdl;      // (a non-const model would select the NLFeeder template)
+    if (!nls.LoadModel(cmdl)) { emit(std::string("{\"e\":\"EasyLoadFailed\",\"msg\":") + jstr(nls.GetErrorMessage(), 120) + "}"); return; }
+    rename(path.c_str(), (stub + ".sol").c_str());
+    mp::NLSolution sol = nls.ReadSolution();
+    size_t nsufbad = 0;
+    for (const auto &sf : sol.suffixes_)
+      if (((sf.kind_ & 3) == 0 && sf.values_.size() != (size_t)n)) ++nsufbad;     // variable suffixes: one value per variable
+    emit("{\"e\":\"Easy\",\"ok\":" + std::string(sol ? "true" : "false") + ",\"nx\":" + std::to_string(sol.x_.size()) + ",\"ny\":" + std::to_string(sol.y_.size()) +
+         ",\"sufbad\":" + std::to_string(nsufbad) + ",\"hasmsg\":" + (*nls.GetErrorMessage() ? "true" : "false") + "}");
+    rename((stub + ".sol").c_str(), path.c_str());
+  }, WD + "/stderr.txt", 10)
+  : run_isolated([&] {
     Rec h;
     h.h_.num_vars = dnv; h.h_.num_algebraic_cons = dnc; h.mode_ = mode;
     mp::NLUtils ut;
@@ -314,13 +343,15 @@ int main(int argc, char **argv) {
                             {(int)f0.nvars, (int)f0.ncons, "equal"}, {(int)f0.nvars + 2, (int)f0.ncons + 2, "larger"}};
     auto pick_decl = [&]() { return decls[rng() % 4 == 0 ? rng() % 4 : 2 + rng() % 2]; };
     auto pick_mode = [&]() { unsigned r = rng() % 8; return r < 4 ? ALL : r == 4 ? SOME : r == 5 ? NONE : r == 6 ? SETERR : REFUSE; };
+    bool easy_ok = f0.nvars >= 1;
 
     // ---- the valid file in both formats x all declared sizes x all handlers
     for (int fmt = 1; fmt <= 2; ++fmt) {
       Bytes b = fmt == 1 ? to_text(f0) : to_binary(f0);
       for (auto &d : decls)
-        for (int m = ALL; m <= REFUSE; ++m)
-          one_read(b.b, f0, fmt == 1 ? "text" : "binary", "none", "valid", d.nv, d.nc, d.cls, (Mode)m, (int)k);
+        for (int m = ALL; m <= EASY; ++m)
+          if (m != EASY || d.nv > 0)
+            one_read(b.b, f0, fmt == 1 ? "text" : "binary", "none", "valid", d.nv, d.nc, d.cls, (Mode)m, (int)k);
     }
     // ---- structure mutations
     std::vector<Mut> muts;
@@ -371,6 +402,11 @@ int main(int argc, char **argv) {
       } else {
         D d = pick_decl(); Mode md = pick_mode();
         one_read(b.b, m.f, fmt == 1 ? "text" : "binary", label, cls, d.nv, d.nc, d.cls, md, (int)k);
+      }
+      // the library's own handler, with the true sizes and (every other time) a larger model
+      if (easy_ok && (thorough || rng() % 3 == 0)) {
+        const D &d = decls[rng() % 2 ? 2 : 3];
+        one_read(b.b, m.f, fmt == 1 ? "text" : "binary", label, cls, d.nv, d.nc, d.cls, EASY, (int)k);
       }
     };
     for (auto &m : muts)
